@@ -311,12 +311,12 @@ def run_messages(ctx, B, n_cases):
             for name in list(rec.values):
                 setattr(msg, name, rec.values[name])           # message-level typed attributes
             actual = bc.to_val(body, msg.record)
-            n, b = msg.to_bytes()
+            n, b = bc.guarded_call(msg.to_bytes)
             if n != len(b):
                 ctx.violation(f'message: reported length {n} != {len(b)} bytes', rep)
             outs = []
             for data in (b + tail, bytearray(b + tail)):
-                m, dmsg = base.from_bytes(data)
+                m, dmsg = bc.guarded_call(lambda: base.from_bytes(data))
                 outs.append((m, dmsg))
                 if type(dmsg) is not classes[k]:
                     ctx.violation(f'message decoded as {type(dmsg).__name__}, not the class that was encoded', rep)
@@ -329,12 +329,12 @@ def run_messages(ctx, B, n_cases):
                         diff = diff or bc.reads_differ(fty, x, y, f'msg.f{name_idx}')
                     if diff:
                         ctx.violation(f'message field reads back different: {diff}', rep)
-                    elif dmsg.to_bytes() != (n, b):
+                    elif bc.guarded_call(dmsg.to_bytes) != (n, b):
                         ctx.violation('re-encoding the decoded message gives different bytes', rep)
             m, dmsg = outs[0]
             got_enc = f'ok {n} {len(b)}'
             # the body alone, as for directions the client cannot dispatch by type (OUCH incoming)
-            bm, brec = classes[k].BodyRecord.from_bytes(b[1:] + tail)
+            bm, brec = bc.guarded_call(lambda: classes[k].BodyRecord.from_bytes(b[1:] + tail))
             if bm != len(b) - 1 or bc.reads_differ(body, msg.record, brec):
                 ctx.violation('BodyRecord.from_bytes on the message body does not return the encoded record', rep)
         except Exception as e:  # noqa
@@ -343,7 +343,7 @@ def run_messages(ctx, B, n_cases):
         # unknown indicator
         unknown = next(i for i in range(256) if i not in inds)
         try:
-            base.from_bytes(bytes([unknown]) + b[1:])
+            bc.guarded_call(lambda: base.from_bytes(bytes([unknown]) + b[1:]))
             got_unknown = 'ok'
         except Exception as e:  # noqa
             got_unknown = 'err ' + err_name(e)
@@ -378,7 +378,7 @@ def check_domain_case(ctx, B, ty, v, tail, model_line, kind_='roundtrip'):
         return None
     bad = oracle_roundtrip(B, ty, pobj, tail)
     if bad:
-        sty, sv = bc.shrink(ty, v, fails_oracle(B, tail))
+        sty, sv = bc.shrink(ty, bc.complete(ty, v), fails_oracle(B, tail)) if len(ctx.violations) < 3 else (ty, v)
         spobj = B.from_val(sty, sv, typed=True)
         bad2 = oracle_roundtrip(B, sty, spobj, tail) or bad
         report(ctx, bad2, {'kind': kind_, 'ty': sx(sty), 'val': sx(sv), 'tail': tail.hex()})
@@ -434,6 +434,9 @@ def run(ctx):
 
     lines, impl_lines, metas = [], [], []
     for src, ty, v, tail in cases:
+        if len(ctx.violations) >= 20:
+            ctx.notes.append('stopped early: 20 failing inputs recorded')
+            break
         dom = bc.in_domain(ty, bc.complete(ty, v)) and bc.constructible(ty)
         typed = src != 'malformed' and (dom or src == 'offdomain')
         ctx.count(f'{src}:{"in-domain" if dom else "off-domain"}')
@@ -482,6 +485,8 @@ def run(ctx):
     else:
         ctx.notes.append('model driver unavailable: oracle only')
 
+    if len(ctx.violations) >= 20:
+        return
     # ---- 2. truncated decoder input: each side truncates its own encoding; error class and consumed length are compared
     tlines, tgot, tmeta = [], [], []
     for src, ty, actual, tail, dom in metas[:: (3 if quick else 1)]:
